@@ -25,7 +25,7 @@ func init() {
 		ID: "C16", Level: "fault_enumeration", Tech: "deterministic simulation: restart enumeration over (crash point of the tape) x (index absent / current / stale snapshot), then Initialize, further calls and a rebuild",
 		Rule:      "per generated history: tape = intact or cut at enumerated crash points (call boundaries, record boundaries, inside headers, inside content); index = absent, current, or the snapshot taken at any earlier call boundary; a fresh instance is constructed and initialised over copies; oracle: the old tape is a prefix of the tape afterwards, nothing is appended when the tape holds a complete root record, on success the observed tree+contents equal a from-scratch rebuild of that tape, and entries written afterwards read back and survive a rebuild; in a quarter of the histories the documented cache composition (memory / dir with a cache directory that outlives the instance) is opened, the tape is changed by an uncached instance, and a new cached instance must show the rebuilt state; an evaluation = one (history, cut, index) combination; non-trivial = cut inside the tape or stale index; distinct by (history, cut class, index class)",
 		QuickRuns: 500, QuickSecs: 70, ThoroughRuns: 1500, ThoroughSecs: 1500,
-		Assumptions: []string{"index snapshots are file copies taken at call boundaries (SQLite's own crash recovery is not modelled)", "an index that is ahead of the tape is not modelled", "open known findings KF3-KF4 restrict what is judged for torn tails and stale indexes (see DESIGN.md)"},
+		Assumptions: []string{"index snapshots are file copies taken at call boundaries (SQLite's own crash recovery is not modelled)", "an index that is ahead of the tape is not modelled", "open known finding KF4 restricts what is judged for writes after opening a tape with a torn tail (see DESIGN.md)"},
 		Gen: func(r *rand.Rand, tier string, relax Relax) *Case {
 			c := &Case{Cfg: GenConfig(r, 0.6), P: map[string]int64{"enumerate": 1}, S: map[string]string{}}
 			ops, u := GenHistory(r, GenOpts{MaxOps: 7, Handles: r.Float64() < 0.3, RS: c.Cfg.RecordSize, ValidBias: 0.85})
